@@ -28,7 +28,7 @@ def spec_to_code(report, module, cfg_text, replayer, opts=(), *, workers_tlc=12,
                               text=True, bufsize=1 << 16)
              for _ in range(workers_replay)]
     lock = threading.Lock()
-    agg = {"total": 0, "finals": set(), "kinds": {}, "findings": [], "samples": []}
+    agg = {"total": 0, "finals": set(), "kinds": {}, "findings": [], "samples": [], "tags": {}}
 
     def collect(p):
         for line in p.stdout:
@@ -39,6 +39,8 @@ def spec_to_code(report, module, cfg_text, replayer, opts=(), *, workers_tlc=12,
                 for a, c in r["kinds"].items():
                     agg["kinds"][a] = agg["kinds"].get(a, 0) + c
                 agg["findings"] += r["findings"]
+                for a, c in r.get("tags", {}).items():
+                    agg["tags"][a] = agg["tags"].get(a, 0) + c
                 if r["sample"] is not None and len(agg["samples"]) < 2:
                     agg["samples"].append(r["sample"])
 
@@ -79,6 +81,9 @@ def spec_to_code(report, module, cfg_text, replayer, opts=(), *, workers_tlc=12,
     report.add("transitions", res.generated)
     report.add("behaviours_replayed", agg["total"])
     report.add("distinct_final_states_replayed", len(agg["finals"]))
+    tg = report.cov.setdefault("case_tags", {})
+    for a, c in agg["tags"].items():
+        tg[a] = tg.get(a, 0) + c
     acts = report.cov.setdefault("replayed_last_action_counts", {})
     for a, c in agg["kinds"].items():
         acts[a] = acts.get(a, 0) + c
